@@ -43,6 +43,19 @@ def order_and_depth(run, cfg):
         q = run.decide('%s/no-gaps' % name, ex.pre + [z3.Or(*gaps)], kind='smt', note='an info line for depth k+1 implies one for depth k')
         if q.verdict == 'sat':
             report(run, q, name, 'an iteration is reported although the previous one was not')
+    # an iteration that was cut short is never reported
+    iters = res['iters']
+    cutrep = [z3.And(zb(infos[k]['guard']), zb(iters[k]['cut'])) for k in range(min(len(infos), len(iters)))]
+    if cutrep:
+        q = run.decide('%s/no-report-for-a-cut-iteration' % name, ex.pre + [z3.Or(*cutrep)], kind='smt',
+                       note='an info line is printed only for an iteration that completed (stop, node budget, movetime or clock budget did not cut it)')
+        if q.verdict == 'sat':
+            import os
+            if os.environ.get('VERIF_DEBUG'):
+                print('DEBUG evals', [(k, str(q.model.eval(zb(infos[k]['guard']), model_completion=True)), str(q.model.eval(zb(iters[k]['cut']), model_completion=True)), str(iters[k]['depth'])) for k in range(min(len(infos), len(iters)))], len(infos), len(iters))
+                print('DEBUG guard0', str(z3.simplify(zb(infos[0]['guard'])))[:1500])
+                print('DEBUG model', {str(d): str(q.model[d]) for d in q.model.decls() if not str(d).startswith(('kl', 'g0_', 'g1_', 'g2_', 'v_child'))})
+            c09.real_report_check(run, 'an iteration cut short by a limit is still reported in an info line')
     if cfg == 'max-depth-from-go':
         L = lambda n: z3.Bool('lim_%s_some' % n)
         no_other = z3.Not(z3.Or(L('nodes'), L('movetime'), L('wtime'), L('btime'), L('winc'), L('binc')))
